@@ -35,6 +35,7 @@ func GenStress(rt *rapid.T, maxPushers, maxPer int) Stress {
 	s.Cfg.MaxQueueSize = rapid.SampledFrom([]int64{0, 1, 100, 3000, 1 << 30}).Draw(rt, "queue")
 	s.Cfg.Workers = rapid.SampledFrom([]int{1, 2, 3, 4, 1, 8}).Draw(rt, "workers")
 	DrawRetries(rt, &s.Cfg)
+	s.Cfg.AsyncNode = rapid.IntRange(0, 2).Draw(rt, "async_node") == 1
 	s.Cfg.Bernstein = rapid.Bool().Draw(rt, "bernstein")
 	np := rapid.IntRange(2, maxPushers).Draw(rt, "pushers")
 	for p := 0; p < np; p++ {
@@ -44,7 +45,7 @@ func GenStress(rt *rapid.T, maxPushers, maxPer int) Stress {
 			if rapid.IntRange(0, 9).Draw(rt, "http") < 4 {
 				plan = append(plan, Action{Op: "http", Proto: rapid.SampledFrom(HTTPKinds).Draw(rt, "proto"),
 					Rows: rapid.IntRange(1, 8).Draw(rt, "rows"), Streams: rapid.IntRange(1, 3).Draw(rt, "streams"),
-					Big: rapid.IntRange(0, 15).Draw(rt, "big") == 8})
+					Big: rapid.IntRange(0, 15).Draw(rt, "big") == 8, Hdr: DrawHeaders(rt)})
 				if plan[len(plan)-1].Proto == "profile" {
 					plan[len(plan)-1].Big = false // region of finding C16-profile-over-1MiB
 				}
@@ -160,7 +161,8 @@ func RunStress(s Stress) *Trace {
 				case "http":
 					var hr *http.Request
 					hr, exp := BuildHTTP(a.Proto, id, a.Streams, a.Rows, a.Big)
-					rq := &Request{ID: id, HTTP: true, Proto: a.Proto, Expect: exp}
+					ApplyHeaders(hr, a.Hdr)
+					rq := &Request{ID: id, HTTP: true, Proto: a.Proto, Expect: exp, Hdr: a.Hdr}
 					mu.Lock()
 					tr.Reqs = append(tr.Reqs, rq)
 					mu.Unlock()
